@@ -253,15 +253,86 @@ def constructor(rep, idx):
     ctor = get_ctor(idx, "Register")
     site = ctor.fi.site
     rep.analysed(site)
-    loops = [L for L in ctor.t.loops.values() if L.kind == 'seq' and ctor.norm(L.seq) == ('name', 'self')]
-    if len(loops) != 1:
-        rep.bad("C11.4", site, "__init__ iterates the same field sequence as elaborate (`for path, field in self`)", f"found {len(loops)} such loops")
+    def unlist(e):
+        while e is not None and e[0] == 'call' and e[1] in (('name', 'list'), ('name', 'tuple')) and len(e[2]) == 1 and not e[3]:
+            e = e[2][0]
+        return e
+    def seq_of(L):
+        s = ctor.norm(L.seq) if L.seq is not None else None
+        if s is not None and s[0] == 'name' and s[1] not in ctor.fi.params:
+            v = ctor.t.final_env.get(s[1])
+            stores = [n for n in ast.walk(ctor.fi.node) if isinstance(n, ast.Name) and n.id == s[1] and isinstance(n.ctx, ast.Store)]
+            if isinstance(v, tuple) and len(stores) == 1:
+                s = ctor.norm(v)
+        return unlist(s)
+    loops = [L for L in ctor.t.loops.values() if L.kind == 'seq' and seq_of(L) == ('name', 'self')]
+    if not loops:
+        what4 = "__init__ iterates the same field sequence as elaborate (`for path, field in self`)"
+        node = ctor.fi.node
+        srcs = [n for fn_ in [node] + [h.node for h in (ctor.fi.cls.methods.get(nm, [None])[0] for nm in ctor.fi.cls.methods) if h is not None and
+                                      h.name.startswith("_") and not h.name.startswith("__")] for n in ast.walk(fn_)]
+        # (a) the width / the checks run over a *filtered* copy of the field sequence
+        filtered = [a_ for a_ in srcs if isinstance(a_, ast.Assign) and len(a_.targets) == 1 and isinstance(a_.targets[0], ast.Name) and
+                    isinstance(a_.value, (ast.ListComp, ast.GeneratorExp)) and any(g.ifs for g in a_.value.generators) and
+                    isinstance(a_.value.elt, ast.Tuple)]
+        for a_ in filtered:
+            nm = a_.targets[0].id
+            users = [n for n in srcs if isinstance(n, (ast.For, ast.comprehension)) and isinstance(n.iter, ast.Name) and n.iter.id == nm]
+            widths = [u for u in users if any(isinstance(x, ast.Attribute) and x.attr == "width" for x in ast.walk(u if isinstance(u, ast.For) else u.iter)) or
+                      any(isinstance(p_, (ast.GeneratorExp, ast.ListComp)) and u in p_.generators and
+                          any(isinstance(x, ast.Attribute) and x.attr == "width" for x in ast.walk(p_.elt)) for p_ in srcs)]
+            if widths:
+                cond = ast.unparse(a_.value.generators[0].ifs[0])[:60]
+                rep.bad("C11.4", site, "register width == sum over all fields of Shape.cast(field.port.shape).width (the slice width)",
+                        f"the width is summed over `{nm}`, a filtered copy of the field sequence (only fields with `{cond}`), while elaborate() gives "
+                        "every field its slice: the element is narrower than the fields it must hold", line=a_.lineno)
+                return
+        # (b) the checks run over self._field.flatten() in some arms of a choice, and another arm (the single un-named field, where
+        #     self._field is the field itself) only computes the width
+        def has_checks(stmts):
+            return any(isinstance(x, ast.Raise) for s_ in stmts for x in ast.walk(s_)) or \
+                any(isinstance(x, ast.Call) and isinstance(x.func, ast.Attribute) and x.func.attr.startswith("_check") for s_ in stmts for x in ast.walk(s_))
+
+        def sets_width(stmts):
+            return any(isinstance(x, ast.Name) and x.id == "width" and isinstance(x.ctx, ast.Store) for s_ in stmts for x in ast.walk(s_))
+
+        def uses_flatten(stmts):
+            return any(isinstance(x, ast.Call) and isinstance(x.func, ast.Attribute) and x.func.attr == "flatten" for s_ in stmts for x in ast.walk(s_))
+        for n in ast.walk(node):
+            if not isinstance(n, ast.If):
+                continue
+            arms, cur = [], n
+            while True:
+                arms.append(cur.body)
+                if len(cur.orelse) == 1 and isinstance(cur.orelse[0], ast.If):
+                    cur = cur.orelse[0]
+                else:
+                    if cur.orelse:
+                        arms.append(cur.orelse)
+                    break
+            checked = [a_ for a_ in arms if uses_flatten(a_) and has_checks(a_) and sets_width(a_)]
+            bare = [a_ for a_ in arms if sets_width(a_) and not has_checks(a_) and not uses_flatten(a_)]
+            if checked and bare:
+                rep.bad("C11.5", site, "a field whose access mode the register's access mode cannot serve is refused -- for every field collection shape",
+                        "the access-mode checks run only where the collection is flattened; the arm for a register made of one un-named field "
+                        f"(`{ast.unparse(bare[0][0])[:70]}` ...) only computes the width: such a register accepts a readable field with a write-only "
+                        "element (and vice versa)", line=bare[0][0].lineno)
+                return
+        rep.unk("C11.4", site, what4,
+                f"no loop over the register's own field sequence found ({len(ctor.t.loops)} loop(s) in the constructor)")
         return
-    L = loops[0]
-    field = ctor.norm(('sub', ('sub', ('name', 'self'), ('idx', L.id)), ('const', 1)))
+    # the loop (of possibly several over the same sequence) that adds up the widths
+    L, wf, folds = loops[0], [], []
+    for L_ in loops:
+        field = ctor.norm(('sub', ('sub', L_.seq, ('idx', L_.id)), ('const', 1)))
+        W = ctor.parse(W_TEXT, {"field": field})
+        folds_ = [f for f in ctor.t.folds.values() if f.loop == L_.id]
+        wf_ = [f for f in folds_ if ctor.norm(f.init) == ('const', 0) and ctor.norm(f.update) == ctor.norm(('bin', '+', ('carry', f.id), W))]
+        folds += folds_
+        if wf_:
+            L, wf = L_, wf_
+    field = ctor.norm(('sub', ('sub', L.seq, ('idx', L.id)), ('const', 1)))
     W = ctor.parse(W_TEXT, {"field": field})
-    folds = [f for f in ctor.t.folds.values() if f.loop == L.id]
-    wf = [f for f in folds if ctor.norm(f.init) == ('const', 0) and ctor.norm(f.update) == ctor.norm(('bin', '+', ('carry', f.id), W))]
     rep.check(len(wf) == 1, "C11.4", site, "register width == sum over all fields of Shape.cast(field.port.shape).width (the slice width)",
               f"folds over the field loop: {[(f.name, ctor.show(f.update)) for f in folds]}")
     # the signature gets that sum and the access mode
